@@ -21,6 +21,7 @@ import subprocess
 import sys
 from collections import Counter
 
+from checks.guard import guarded
 from oracles import mst_big as B
 from vf.core import use_repo
 
@@ -397,11 +398,11 @@ def call_case(case, n, edges):
             else:
                 es = order_edges(edges, case["order"], rng)
             case["_args"] = es
-            return kruskal(n, es, allow_forest=case["allow_forest"], backend="python"), None, None
+            return guarded("kruskal", kruskal, n, es, allow_forest=case["allow_forest"], backend="python"), None, None
         g, lab = prim_inputs(n, edges, case["scheme"], case["order"], rng)
         if case["start"] is None:
-            return prim(g), None, lab
-        return prim(g, start=lab[case["start"]]), None, lab
+            return guarded("prim", prim, g), None, lab
+        return guarded("prim", prim, g, start=lab[case["start"]]), None, lab
     except Exception as e:  # noqa: BLE001
         return None, e, None
 
@@ -654,7 +655,7 @@ class KruskalSession:
 
     def call(self, step):
         from solvor.mst import kruskal
-        return kruskal(self.n, self.edges, allow_forest=step["allow_forest"], backend="python")
+        return guarded("kruskal", kruskal, self.n, self.edges, allow_forest=step["allow_forest"], backend="python")
 
 
 class PrimSession:
@@ -717,8 +718,8 @@ class PrimSession:
     def call(self, step):
         from solvor.mst import prim
         if step["start"] is None:
-            return prim(self.g)
-        return prim(self.g, start=self.lab[step["start"] % len(self.lab)])
+            return guarded("prim", prim, self.g)
+        return guarded("prim", prim, self.g, start=self.lab[step["start"] % len(self.lab)])
 
 
 def summ(res):
